@@ -27,13 +27,15 @@ BOUND = {
 }
 TIME_CAP = {"quick": 240, "thorough": 3000}
 
-KINDS = ["f8", "i8", "u1", "b1", "str", "U", "D", "us", "ns", "td", "obj", "objb"]
+KINDS = ["f8", "i8", "u1", "b1", "str", "U", "D", "us", "ns", "td", "obj", "objb", "objs"]
 METHODS = [("sort", 1), ("sort", -1), ("rank", "min"), ("rank", "max"), ("rank", "ordinal"), ("unique", None)]
 
 
 def alpha_of(kind, tier):
     if kind == "objb":
         return [None, False, True]
+    if kind == "objs":
+        return [None, "None", "a"]  # the text 'None' is a value, not a missing value
     return V.alphabet(kind, tier)
 
 
@@ -55,9 +57,25 @@ def okey(v):
     return None if v is None else V.value_order_key(v)
 
 
+class _Proxy:
+    def __init__(self, rec, case):
+        self.rec, self.case2 = rec, case
+
+    def __getattr__(self, name):
+        return getattr(self.rec, name)
+
+    def violation(self, op, clause, case, detail="", cls=None):
+        return self.rec.violation(op, "after-in-place-edit:" + clause, self.case2, detail, cls)
+
+
 def check_case(case, rec):
     kind, toks = case["kind"], case["toks"]
-    v = V.vector("obj" if kind == "objb" else kind, toks)
+    v = V.vector("obj" if kind in ("objb", "objs") else kind, toks)
+    check_on(v, kind, toks, case["methods"], rec, case)
+
+
+def check_on(v, kind, toks, methods, rec, case=None):
+    case = case or {"methods": methods}
     before = V.col_key(v)
     rec.state(before)
     xs = V.cells(v)
@@ -65,7 +83,7 @@ def check_case(case, rec):
     ks = [okey(x) for x in xs]
     nm = [k for k in ks if k is not None]
     nontrivial = n >= 2 and (None in xs or len(set(map(repr, ks))) < n)
-    for method, arg in case["methods"]:
+    for method, arg in methods:
         rec.case((before, method, arg), nontrivial)
         rec.trans()
         one = {"kind": kind, "toks": toks, "methods": [[method, arg]]}
@@ -140,6 +158,12 @@ def check_case(case, rec):
         except Exception as e:
             rec.violation(method, "malformed-result", one, f"{type(e).__name__}: {e}")
     rec.sample({"kind": kind, "toks": toks, "methods": case["methods"][:2]})
+    if case.get("poke") and n >= 2 and not V.same_value(xs[0], xs[-1]):
+        # methods were called on v above (anything they cached on the object is now stale)
+        v[0] = v[n - 1]
+        toks2 = [toks[-1]] + list(toks[1:])
+        sub = _Proxy(rec, {"kind": kind, "toks": toks, "methods": case["methods"], "poke": True})
+        check_on(v, kind, toks2, [["sort", 1], ["sort", -1], ["rank", "min"], ["rank", "ordinal"], ["unique", None]], sub)
 
 
 def run_shard(shard, rec):
@@ -151,7 +175,7 @@ def run_shard(shard, rec):
         it = ((alpha[shard["first"]],) + rest for rest in itertools.product(alpha, repeat=n - 1))
     methods = [list(m) for m in METHODS]
     for toks in it:
-        check_case({"kind": kind, "toks": list(toks), "methods": methods}, rec)
+        check_case({"kind": kind, "toks": list(toks), "methods": methods, "poke": True}, rec)
 
 
 def classify(v):
